@@ -103,6 +103,11 @@ def cfg_table(ctx):
                         else:
                             kind = "?"
                         stores.append((name, kind, a))
+                        return
+                # any other statement that touches the keyword dictionary is outside the traced model
+                if a is not None and any(isinstance(x, ast.Name) and x.id == kw_param for x in ast.walk(a)) \
+                        and not (isinstance(a, ast.Assign) and len(a.targets) == 1 and isinstance(a.targets[0], ast.Subscript) and isinstance(a.targets[0].value, ast.Name) and a.targets[0].value.id == kw_param):
+                    state["opaque"] = norm(a)[:80]
 
             def atom(x):
                 if isinstance(x, ast.Compare) and len(x.ops) == 1:
@@ -134,6 +139,9 @@ def cfg_table(ctx):
                 C.trace(g, start, atom, stop=[head], visit=visit)
             except C.Undetermined as exc:
                 table[(key, vclass)] = ("undetermined", str(exc))
+                continue
+            if state.get("opaque"):
+                table[(key, vclass)] = ("undetermined", "the keyword dictionary is also modified by `%s`" % state["opaque"])
                 continue
             # the last store per keyword name wins
             final = {}
